@@ -283,6 +283,7 @@ static bool do_op(shadow *sh, int op, mismatch *mm, bool counting)
     else { p->cb = count_cb; p->cb_context = &user_ctx; }     /* a user callback WITH a context is installed when to_string / print are called */
     vf_progress++;
     cur_op = op;
+    vf_stack_paint();
     switch (op) {
     case OP_INIT_OBJ: ret = binson_parser_init_object(p, buf, L.len); break;
     case OP_INIT_ARR: ret = binson_parser_init_array(p, buf, L.len); break;
@@ -541,7 +542,13 @@ static void report(size_t from, int op, const mismatch *mm)
     for (int k = 0; k < 2; k++) {
         mismatch m2;
         int bad = run_history(h, op >= 0 ? n + 1 : 0, &m2);
-        if (bad != (op >= 0 ? n : -3) || strcmp(m2.why, mm->why)) vf_die("violation did not reproduce on replay (%s | %s)", mm->why, m2.why);
+        if (bad != (op >= 0 ? n : -3)) vf_die("violation did not reproduce on replay (%s | %s)", mm->why, m2.why);
+        if (strcmp(m2.why, mm->why) && !strstr(mm->why, "[details vary from run to run")) {
+            /* the same call fails on every replay but not with the same details: the library's behaviour depends on something other
+             * than its inputs (uninitialised memory); reported under a description that is stable */
+            size_t l = strlen(mm->why);
+            snprintf(mm->why + l, sizeof mm->why - l, " [details vary from run to run with identical inputs]");
+        }
     }
     L = keep;
     char sig[200];
